@@ -142,7 +142,7 @@ def _one(args):
 def configs(ck):
     if ck.quick:
         return [(3, 3, 1, 1), (3, 2, 2, 1), (3, 2, 1, 2)]      # (N, G, W, S)
-    return [(4, 3, 1, 1), (3, 3, 2, 1), (4, 2, 1, 2), (3, 2, 2, 2), (3, 4, 1, 1), (3, 2, 1, 3)]
+    return [(4, 3, 1, 1), (3, 3, 2, 1), (4, 2, 1, 2), (3, 2, 2, 2), (3, 4, 1, 1)]
 
 
 def run(ck):
